@@ -8,6 +8,7 @@ ops:  ["rx", line]
       ["tx", [n, c, cmd, ack, t, payload], buffered]
       ["flag", node_id, "reboot" | "sleeping", bool]      application sets a public attribute
       ["restore", node_id, {type, version, sleeping, children: {cid: [ctype, desc, {vt: val}]}}]
+      ["reenter"]                                          leave and re-enter `async with gateway`
 """
 
 from __future__ import annotations
@@ -139,6 +140,16 @@ class Lockstep:
                 self.model.flag(op[1], op[2], op[3])
             elif kind == "restore":
                 self.restore(op[1], op[2])
+            elif kind == "reenter":
+                # the application leaves and re-enters `async with gateway` (reconnect); nothing in the statements makes
+                # the controller forget registry, buffer or episodes, so the model does nothing
+                await self.stepper.close()
+                try:
+                    await self.gateway.__aexit__(None, None, None)
+                    await self.gateway.__aenter__()
+                except Exception as exc:  # noqa: BLE001
+                    self.bad("C16", "reenter-raised", f"re-entering the context raised {type(exc).__name__}")
+                self.transport.take_writes()
             self.check_invariants()
         await self.stepper.close()
         return self.mismatches
